@@ -2,7 +2,7 @@
 
 World: one directory D with two paths p, q (q may be absent) and one persistent hash-cache directory (outside D).
 Ops (alphabet A of DESIGN.md):
-  write(p, c)        c from a pool of 3 | 4 contents (two sizes): relative to the current content this is a same-size-
+  write(p, c)        c from a pool of 3 contents (two of equal size): relative to the current content this is a same-size-
                      different, a different-size or an identical rewrite (open(p, "wb"))
   utime(p, t)        t in {mtime p had before its last change ("restore"), +1 ns, +2 s}
   rename(q -> p)     os.rename over p (q disappears, mtime travels with the file)
@@ -36,7 +36,7 @@ LEVEL = "model_checking"
 T0 = 1_600_000_000 * 10 ** 9          # all mtimes are explicit: T0 + k * STEP (+ utime offsets)
 STEP = 10 * 10 ** 9
 NS1, S2 = 1, 2 * 10 ** 9
-CONTENTS = {"c0": b"aaaa", "c1": b"bbbb", "c2": b"ccccccc", "c3": b"ddddddd"}  # two sizes, two contents each
+CONTENTS = {"c0": b"aaaa", "c1": b"bbbb", "c2": b"ccccccc"}  # c0/c1: same size, c2: different size
 
 
 # ------------------------------------------------------------------------------------------------ model of the world
@@ -231,7 +231,7 @@ def fmt(hist):
 # ------------------------------------------------------------------------------------------------ search
 def search(part, init_idx, first_ops, depth_cap, thorough, checksum_depth, collect=None):
     """BFS below the prefix `first_ops` (applied to initial state number init_idx)"""
-    contents = list(CONTENTS)[:4 if thorough else 3]
+    contents = list(CONTENTS)[:3]
     init = initial_states(True)[init_idx]
     w = World(part.scratch / "c09")
     label = dict(init=init_idx)
@@ -419,7 +419,7 @@ def cross_process(ctx, histories, per_child=400):
 def xp_histories(thorough):
     """histories for the fresh-interpreter observation: [hash, <k content/timestamp ops>, hash] for every op sequence of
     length <= 1 | 3 over the non-observing alphabet, both observation kinds, every initial state"""
-    contents = list(CONTENTS)[:4 if thorough else 3]
+    contents = list(CONTENTS)[:3]
     out = []
     for init_idx, init in enumerate(initial_states(thorough)):
         for what in ("file", "dir"):
@@ -441,7 +441,7 @@ def run(ctx):
     from vt.par import pmap
     depth_cap = 6 if ctx.thorough else 4
     checksum_depth = 4
-    contents = list(CONTENTS)[:4 if ctx.thorough else 3]
+    contents = list(CONTENTS)[:3]
     items = []
     for i, init in enumerate(initial_states(ctx.thorough)):
         for op in enabled(init, contents):
